@@ -1,34 +1,63 @@
 -------------------------- MODULE TableLayoutTrace --------------------------
-(* Recorded calls of the real Table.render checked against TableLayout.
-   A trace is a list of render events; an event:
-     n, hdr, rows, style, T, ind, al      the table as the driver built it (visible text of every cell as codes)
-     tagged                               cells (numbers) that contain <b>..</b> style tags in the real table
-     before, after                        projection of the table's own rows read before / after render
+(* Recorded calls on real Table objects checked against TableLayout (what a render draws) and TableObject (which
+   rows and header a table has after a history of calls).  A trace is a list of events; every event carries
+   every field:
+     op                                   "render" | "set_header" | "add_row" | "set_row" | "set_rows"
+     fromObj                              FALSE: a render of a table the driver built in one go, described by
+                                          n, hdr, rows;  TRUE: a call on the one Table object of this trace, whose
+                                          rows and header are those the TableObject model has at that moment
+     row, rws, idx                        arguments of the object calls (cell texts as codes)
+     n, hdr, rows, style, T, ind, al      the table (fromObj = FALSE), style, terminal width, indentation, alignments
+     tagged                               cells (numbers, row-major) that contain <b>..</b> style tags in the real table
+     before, after                        projection of the table's own rows read before / after the call
                                           (tag characters appear as code 9)
-     obs = [kind ("ok"|"exc"), cls, lines]   what render did: exception class, or the written lines (visible
-                                          characters, escape sequences removed, as codes)
-     runA                                 whether the A-layer is to be run on this table as well (DRIFT only)
+     obs = [kind ("ok"|"exc"), cls, lines]   what the call did: exception class, or (render) the written lines
+                                          (visible characters, escape sequences removed, as codes)
+     runA                                 whether the A-layer is to be run on this render as well (DRIFT only)
    P-clauses are evaluated on the observation only.  The A-layer's exact ties of round() are resolved by
    trying the alternatives one after the other (orc) before a DRIFT is noted.                                  *)
-EXTENDS TableLayout, TraceKit
+EXTENDS TableLayout, TableObject, TraceKit
 
-VARIABLES tid, l, orc
-tvars == <<vars, tid, l, orc>>
+VARIABLES tid, l, orc,
+          ph,     \* "begin": the next event has not been looked at; "run": the A-layer works on a render event
+          tbl     \* TableObject state of the trace's Table object
+tvars == <<vars, tid, l, orc, ph, tbl>>
 
 T == Traces[tid]
 Ev == T[l]
-InpOf(e) == [n |-> e.n, hdr |-> e.hdr, rows |-> e.rows, style |-> e.style, T |-> e.T, ind |-> e.ind, al |-> e.al]
+InpOf(e) == IF e.fromObj
+            THEN [n |-> tbl.ncols, hdr |-> tbl.hdr # <<>>, rows |-> ShownRows(tbl), style |-> e.style, T |-> e.T,
+                  ind |-> e.ind, al |-> e.al]
+            ELSE [n |-> e.n, hdr |-> e.hdr, rows |-> e.rows, style |-> e.style, T |-> e.T, ind |-> e.ind, al |-> e.al]
+\* a table without body rows draws nothing: no clause applies
+Drawn(e) == IF e.fromObj THEN Shows(tbl) ELSE TRUE
 
-TInit == /\ tid \in 1..NTraces /\ l = 1 /\ orc = 0
-         /\ IF Len(Traces[tid]) >= 1
-            THEN IF Traces[tid][1].runA THEN Start(InpOf(Traces[tid][1])) ELSE Idle(InpOf(Traces[tid][1]))
-            ELSE Idle([n |-> 0])
+TInit == /\ tid \in 1..NTraces /\ l = 1 /\ orc = 0 /\ ph = "begin" /\ tbl = Empty
+         /\ Idle([n |-> 0])
+
+\* ---- calls that change the object
+Applied(e) == CASE e.op = "set_header" -> FSetHeader(tbl, e.row)
+                [] e.op = "add_row" -> FAddRow(tbl, e.row)
+                [] e.op = "set_row" -> FSetRow(tbl, e.idx, e.row)
+                [] e.op = "set_rows" -> FSetRows(tbl, e.rws)
+TObjOp ==
+  /\ l <= Len(T) /\ ph = "begin" /\ Ev.op # "render"
+  /\ LET r == Applied(Ev)
+     IN /\ tbl' = r.t
+        /\ Note(tid, l, "A.call", IF r.err = "" THEN Ev.obs.kind = "ok" ELSE Ev.obs.kind = "exc" /\ Ev.obs.cls = r.err)
+        /\ Note(tid, l, "A.state", Ev.after = ShownRows(r.t))
+  /\ l' = l + 1 /\ UNCHANGED <<vars, tid, orc, ph>>
+
+\* ---- renders
+TBegin == /\ l <= Len(T) /\ ph = "begin" /\ Ev.op = "render"
+          /\ IF Ev.runA /\ Drawn(Ev) THEN Reset(InpOf(Ev)) ELSE IdleNext(InpOf(Ev))
+          /\ ph' = "run" /\ UNCHANGED <<tid, l, orc, tbl>>
 
 Running == pc \in {"classify", "distribute", "draw"}
 Bit == (orc \div (2 ^ ties)) % 2
-TStep == /\ l <= Len(T) /\ Running
+TStep == /\ l <= Len(T) /\ ph = "run" /\ Running
          /\ (ClassifyPass \/ Distribute(Bit) \/ Draw)
-         /\ UNCHANGED <<tid, l, orc>>
+         /\ UNCHANGED <<tid, l, orc, ph, tbl>>
 
 AMatches(e) == IF pc = "skip" THEN TRUE
                ELSE IF pc = "fail" THEN e.obs.kind = "exc"
@@ -36,23 +65,25 @@ AMatches(e) == IF pc = "skip" THEN TRUE
 MoreOracles == pc # "skip" /\ orc + 1 < 2 ^ ties
 
 \* the other outcome of an exact tie of round() has not been tried yet
-TRetry == /\ l <= Len(T) /\ ~Running /\ ~AMatches(Ev) /\ MoreOracles
-          /\ orc' = orc + 1 /\ Reset(InpOf(Ev)) /\ UNCHANGED <<tid, l>>
+TRetry == /\ l <= Len(T) /\ ph = "run" /\ ~Running /\ ~AMatches(Ev) /\ MoreOracles
+          /\ orc' = orc + 1 /\ Reset(InpOf(Ev)) /\ UNCHANGED <<tid, l, ph, tbl>>
 
-Tagged(e, c) == \E j \in 1..Len(e.tagged) : e.tagged[j] = c
+TaggedClasses(e, i) == {ClassOfText(i.rows[(e.tagged[j] - 1) \div i.n + 1][((e.tagged[j] - 1) % i.n) + 1]) : j \in 1..Len(e.tagged)}
 \* a violation of the text clause that is confined to cells carrying style tags is the known defect
 \* "cells are wrapped by a wrapper that does not know about style tags"
 TextKey(e) ==
   LET i == InpOf(e)
-      bad == BadCells(i, e.obs.lines)
-  IN IF e.tagged # <<>> /\ (\A c \in bad : Tagged(e, c)) THEN "tagged-cell" ELSE ""
+  IN IF e.tagged # <<>> /\ BadClasses(i, e.obs.lines) \subseteq TaggedClasses(e, i) THEN "tagged-cell" ELSE ""
 ExcKey(e) == IF e.tagged # <<>> THEN e.obs.cls \o "/tagged-cell" ELSE e.obs.cls
 
 Clauses(e) ==
   LET i == InpOf(e)
       L == e.obs.lines
-  IN /\ Check(tid, l, "H.input", "", WellFormed(i))
-     /\ Check(tid, l, "H.before", "", \A r \in 1..NRows(i) : \A k \in 1..i.n :
+  IN IF ~Drawn(e) THEN Note(tid, l, "A.lines", e.obs.kind = "ok" /\ L = <<>>)
+     ELSE
+     /\ Check(tid, l, "H.input", "", WellFormed(i))
+     /\ IF e.fromObj THEN Note(tid, l, "A.state", e.before = i.rows)
+        ELSE Check(tid, l, "H.before", "", \A r \in 1..NRows(i) : \A k \in 1..i.n :
                                          SelectSeq(e.before[r][k], LAMBDA x : x # UNK) = i.rows[r][k])
      /\ IF ~Pre(i) THEN TRUE
         ELSE /\ Check(tid, l, "P.succeeds", ExcKey(e), e.obs.kind = "ok")
@@ -64,16 +95,13 @@ Clauses(e) ==
      /\ Note(tid, l, "A.lines", AMatches(e))
 
 TCompare ==
-  /\ l <= Len(T) /\ ~Running
+  /\ l <= Len(T) /\ ph = "run" /\ ~Running
   /\ IF AMatches(Ev) THEN TRUE ELSE ~MoreOracles
   /\ Clauses(Ev)
-  /\ l' = l + 1 /\ tid' = tid /\ orc' = 0
-  /\ IF l + 1 <= Len(T)
-     THEN IF T[l + 1].runA THEN Reset(InpOf(T[l + 1])) ELSE IdleNext(InpOf(T[l + 1]))
-     ELSE UNCHANGED vars
+  /\ l' = l + 1 /\ tid' = tid /\ orc' = 0 /\ ph' = "begin" /\ UNCHANGED <<vars, tbl>>
 
-TDone == /\ l = Len(T) + 1 /\ l' = l + 1 /\ tid' = tid /\ UNCHANGED <<vars, orc>> /\ Accept(tid)
+TDone == /\ l = Len(T) + 1 /\ ph = "begin" /\ l' = l + 1 /\ UNCHANGED <<vars, tid, orc, ph, tbl>> /\ Accept(tid)
 
-TNext == TStep \/ TRetry \/ TCompare \/ TDone
+TNext == TObjOp \/ TBegin \/ TStep \/ TRetry \/ TCompare \/ TDone
 TSpec == TInit /\ [][TNext]_tvars
 =============================================================================
